@@ -58,6 +58,10 @@ CLAIMED = {
          "Exploration by runtime monitoring: 69 planted expectations (client mode, config-file mode, config-file mode with ignore lists) and thousands of generated multi-file workspaces (every 4th in config-file mode); every read of a name and every local declaration is classified by an independent binder as MUST / MUST-NOT / DON'T-CARE for undefined-variable (2), use-before-definition (3) and unused-local (4) and compared with the published diagnostics at exactly that identifier's range; type 17 must never sit on a local that is read.",
          "DON'T-CARE: built-in names, the tool's documented idiom suppressions (and/or/==/~=/not operands, conditions, self reference inside the defining statement), definitions that only occur inside function bodies, locals aliasing library names or require results. Consequences of the resolver trigger classes are findings C07-K1..K3.",
          "DESIGN.md 3/C07"),
+ "C20": ("online monitor: per planted site, diagnostics of the ten pattern checks touching the site's line vs a three-valued expectation table (R-pattern)",
+         "Exploration by runtime monitoring: valid programs in which instances, near-misses and don't-care forms of the checks 5, 7, 8, 13, 14, 15, 16, 19, 20 and 21 (80 site classes) are planted one per line at random nesting depths and, for expression patterns, in random expression contexts; for every site and each of the ten types the number of published diagnostics touching the line must equal the expectation (MUST n / MUST-NOT 0); everything the documentation does not settle is DON'T-CARE.",
+         "The expectation table is written from docs/manual/config.md and the setting descriptions; sites are one per line so that attribution by line is exact.",
+         "DESIGN.md 3/C20"),
 }
 
 PENDING_REASON = "check not built yet in this revision of /verif (work in progress; see DESIGN.md section 3 for the planned monitor)"
